@@ -320,7 +320,7 @@ Print Assumptions C17_t32_variants.
 
 (* bit-field aliases of the a64 assembler (BaseBfx/BaseBfi/BaseBfc/BaseBfm, LSL/LSR/ASR #imm): the (immr, imms) pair
    the assembler computes makes UBFM perform what the mnemonic says, for every source value; operand checks exact for the
-   extract, raw and shift forms; the insert forms accept lsb + width > size (known finding) *)
+   extract, insert, raw and shift forms *)
 From Verif Require Import Codec.BitfieldModel Codec.BitfieldProofs.
 
 Theorem C17_bitfield_bfx_spec : forall size lsb width, size_ok size -> 0 <= lsb -> 0 <= width ->
@@ -338,17 +338,26 @@ Proof. exact ubfx_correct. Qed.
 Print Assumptions C17_bitfield_ubfx.
 
 Theorem C17_bitfield_ubfiz : forall size lsb width r s src, size_ok size -> 0 <= lsb -> 0 <= width -> 0 <= src < 2 ^ size ->
-  encode_bitfield Bfi size lsb width = Some (r, s) -> width <= size - lsb ->
+  encode_bitfield Bfi size lsb width = Some (r, s) ->
   ubfm_sem size r s src = (src mod 2 ^ width) * 2 ^ lsb /\ 0 <= r < size /\ 0 <= s < size.
 Proof. exact ubfiz_correct. Qed.
 Print Assumptions C17_bitfield_ubfiz.
 
-Theorem C17_bfi_width_check_refuted :
-  exists size lsb width r s src, size_ok size /\ 0 <= src < 2 ^ size /\
-    encode_bitfield Bfi size lsb width = Some (r, s) /\ size - lsb < width /\
-    ubfm_sem size r s src <> ((src mod 2 ^ width) * 2 ^ lsb) mod 2 ^ size.
-Proof. exact bfi_width_check_refuted. Qed.
-Print Assumptions C17_bfi_width_check_refuted.
+(* insert forms (BFI/BFC/SBFIZ/UBFIZ) as of /repo 638bd9f: accepted exactly when the field fits the register; the fields are
+   the BFI-alias ones (imms < immr, or lsb = 0 where the architecture prefers the extract alias of the same operation) *)
+Theorem C17_bitfield_bfi_spec : forall size lsb width, size_ok size -> 0 <= lsb -> 0 <= width ->
+  match encode_bitfield Bfi size lsb width with
+  | Some (r, s) => 1 <= width <= size - lsb /\ r = (size - lsb) mod size /\ s = width - 1 /\ 0 <= r < size /\ 0 <= s < size /\
+                   (lsb = 0 \/ s < r)
+  | None => ~ (lsb < size /\ 1 <= width <= size - lsb)
+  end.
+Proof. exact bfi_spec. Qed.
+Print Assumptions C17_bitfield_bfi_spec.
+
+Theorem C17_bitfield_bfi_refused_iff : forall size lsb width, size_ok size -> 0 <= lsb -> 0 <= width ->
+  (encode_bitfield Bfi size lsb width = None <-> ~ (lsb < size /\ 1 <= width <= size - lsb)).
+Proof. exact bfi_refused_iff. Qed.
+Print Assumptions C17_bitfield_bfi_refused_iff.
 
 Theorem C17_bitfield_lsl : forall size sh r s src, size_ok size -> 0 <= sh -> 0 <= src < 2 ^ size ->
   encode_bitfield ShLsl size sh 0 = Some (r, s) ->
